@@ -1,4 +1,5 @@
 import MlModel.Lemmas.Pipe
+import MlModel.Lemmas.PipeBatch
 import MlModel.Lemmas.Iter
 /-!
 # C12 — error skipping drops only failing elements; otherwise the first error surfaces
@@ -93,8 +94,9 @@ real runner's iterator of one un-batched operator.
 
 Full-strength statement (every operator, also with batch sizes): **false** on the real code for
 `assign` with `batch_size` — every record after the first failing call is silently lost (finding
-F5, `Witness/C12.lean: C12_F5_witness`); not attempted for `apply` / `select` with batch sizes
-(there the failing call drops its whole batch of rows and the re-batchers stay alive). -/
+F5, `Witness/C12.lean: C12_F5_witness`); for `apply` / `select` with batch sizes (the failing call
+drops its whole group of rows and the re-batchers stay alive) see `C12_skip_batched_partial`,
+`C12_batched_none_lost_after`. -/
 theorem C12_none_lost_after_partial (op : Op) (h : OpOK op) (r : Val) (rest : List (Ev Val))
     (hc : Ref.Clean true rest) (e : Err) (s' : Nat)
     (hfail : Ref.semCall op op.s0 r = (.error e, s')) (hskip : e.ignorable = true) :
@@ -135,8 +137,8 @@ theorem C12_cause (op : Op) (s : Nat) (ins : List Val) (e : Err) (s' : Nat)
     simp only [Prod.mk.injEq, Except.error.injEq] at h
     exact ⟨by rw [← h.1], k, by rw [← h.1], rfl⟩
 
-/-- **C12_first_error_partial.**  (Partial: operators without batch sizes, `OpOK`; what precedes the
-error when a re-batcher holds rows back is not stated.  "Helper threads end" is property C13: the
+/-- **C12_first_error_partial.**  (Partial: operators without batch sizes, `OpOK`; for `apply` /
+`select` with batch sizes — where a re-batcher holds rows back — see `C12_first_error_batched_partial`.  "Helper threads end" is property C13: the
 check observes it, the model has no threads.)  With skipping off, for every chain of un-batched operators and every
 source: the caller observes exactly the reference's outputs up to its first error and then that
 error (`C12_cause`: a failing function surfaces as `ValueError` with the original as cause);
@@ -156,7 +158,124 @@ theorem C12_first_error_partial (ops : List Op) (hops : ∀ op ∈ ops, OpOK op)
   simp only [Impl.run, hspec]
   exact this
 
+/-! ## operators with batch sizes (`apply` / `select` / `batch`)
+
+Vocabulary: see `Properties/C08.lean`, section "operators with batch sizes".  What the code really
+guarantees for a batched `apply` under skipping: the function is called once per **group** of
+`fn_batch_size` rows (per incoming record if `fn_batch_size = 0`); a call that raises drops exactly
+the rows of its group; every other row is delivered exactly once, in order, aligned across the output
+keys, regrouped into records of `batch_size` rows; both `rebatched_args` generators survive because
+only `_maybe_call_fn` is guarded (`map_ignore_error` sits *between* them).  A record whose inputs
+cannot be read with a skippable error is skipped as a whole (`Ref.skipNT` in `Ref.batchedCols`) —
+the real code does that when `fn_batch_size = 0`; with `fn_batch_size > 0` it loses the rest of
+the stream (finding F-C12-fnbatch-lost), which is why `BatchedOK.clean` is assumed there. -/
+
+/-- **C12_skip_batched_partial.**  `C12_skip_partial` for chains that may contain `apply` / `select`
+/ `batch` operators with batch sizes: with skipping on, what the caller of the real runner observes
+is the reference run (`Ref.chainEventsG true`), in which a batched operator leaves out exactly the
+groups whose call raised (`Ref.callGroups true`, `C12_batched_failing_groups`).
+
+Missing from the full-strength statement: `assign` with batch sizes (false: F5); a record whose
+inputs cannot be read with a skippable error in front of an operator with `fn_batch_size` (false on
+the real code — that record finalises the first `rebatched_args` generator and every later record
+is silently lost: finding F-C12-fnbatch-lost, `Witness/C12.lean: C12_fnbatch_lost_witness`;
+excluded by `BatchedOK.clean`); the well-formedness conditions of `BatchedOK`; and the conditions of
+`C12_skip_partial` for the un-batched operators. -/
+theorem C12_skip_batched_partial (ops : List Op) (src : List (Ev Val)) (h : RunOKG true ops src) :
+    ((Impl.run true ops src).out, (Impl.run true ops src).err)
+      = observe (Ref.chainEventsG true ops src) := by
+  simp only [Impl.run, topEventsG_spec true ops src h]
+
+/-- **C12_batched_failing_groups** (which rows are skipped).  With skipping on, for a function that
+keeps no state: the results that reach the second regrouping are exactly the results of the groups
+whose call does not raise — each once, in order; a failing group contributes nothing and does not
+disturb any other group; the error the stream of groups ended with (if any) is passed on. -/
+theorem C12_batched_failing_groups (op : Op) (s : Nat) (tail : Option Err) (gs : List (List Val))
+    (hpure : ∀ g, (callFn op s g).2 = s) :
+    Ref.callGroups true op tail s gs =
+      (gs.filterMap fun g => match (callFn op s g).1 with
+         | .ok v => some (normOuts op v)
+         | .error _ => none, tail) := by
+  induction gs with
+  | nil => rfl
+  | cons g gs ih =>
+    have hp := hpure g
+    rcases hc : callFn op s g with ⟨r, s'⟩
+    rw [hc] at hp
+    simp only at hp
+    subst hp
+    cases r with
+    | ok v => simp [Ref.callGroups, hc, ih]
+    | error e =>
+      have := callFn_err_ignorable hc
+      simp [Ref.callGroups, hc, ih, terminal, this]
+
+/-- **C12_batched_none_lost_after.**  Any function (with state): a group whose call raises vanishes
+and the groups behind it are processed exactly as if the stream of groups had started behind it (only
+the function's state has moved on) — nothing after a failing group is lost.  Stated for the real
+runner's iterator of one batched `apply` with `fn_batch_size = 0` (groups = incoming records) via
+`C08_batched_apply`; the reference equation holds for every `fn_batch_size`. -/
+theorem C12_batched_none_lost_after (op : Op) (s : Nat) (tail : Option Err) (g : List Val)
+    (gs : List (List Val)) (e : Err) (s' : Nat) (hfail : callFn op s g = (.error e, s')) :
+    Ref.callGroups true op tail s (g :: gs) = Ref.callGroups true op tail s' gs := by
+  have := callFn_err_ignorable hfail
+  simp [Ref.callGroups, hfail, terminal, this]
+
+/-- **C12_first_error_batched_partial.**  `C12_first_error_partial` for chains that may contain
+`apply` / `select` / `batch` operators with batch sizes.  With skipping off: the caller observes
+exactly the reference's outputs and then its first error — for a batched operator the records
+completed by the groups *before* the failing call or the failing source element (`Rebatch.online`:
+the rows held back by a re-batcher are not delivered), then that error; nothing after it; every sink
+closed once.  (Partial: `assign` with batch sizes excluded; well-formedness conditions of
+`BatchedOK`; threads are C13.) -/
+theorem C12_first_error_batched_partial (ops : List Op) (src : List (Ev Val))
+    (h : RunOKG false ops src) :
+    ((Impl.run false ops src).out, (Impl.run false ops src).err)
+        = observe (Ref.chainEventsG false ops src) ∧
+    Impl.topEvents false ops src
+        = (Impl.run false ops src).out.map .ok ++
+            (match (Impl.run false ops src).err with | some e => [.error e] | none => []) ∧
+    (Impl.run false ops src).closed = (ops.filter fun op => op.kind = .sink).map fun _ => 1 := by
+  have hspec := topEventsG_spec false ops src h
+  refine ⟨by simp only [Impl.run, hspec], ?_, by simp [Impl.run]⟩
+  have := observe_errLast _ (chainEventsG_false_errLast ops src)
+  simp only [Impl.run, hspec]
+  exact this
+
 /-! ## non-vacuity -/
+
+/-- `apply(v_fail_on{3}, input_keys='v', output_keys='o', fn_batch_size=2, batch_size=2)`-like: the
+call fails with a skippable error when a row of the group is 3 -/
+def exFailB : Op :=
+  { kind := .apply, inKeys := [.name "v"], outKeys := [.key (.name "o")], fnBatch := 2, batch := 2,
+    fn := fun s args _ => (match args with
+      | [.list xs] =>
+        if xs.any (fun x => match x with | .int 3 => true | _ => false) then .error .value else .ok (.list xs)
+      | _ => .error .type, s) }
+
+/-- the integers of the one column of a record `{key: [..]}` (to read results in the examples) -/
+def colInts : Val → List Int
+  | .dict [(_, .list xs)] => xs.filterMap fun x => match x with | .int i => some i | _ => none
+  | _ => []
+
+/-- 7 one-row column batches -/
+def exColSrc : List (Ev Val) := (List.range 7).map fun i => .ok (.dict [("v", .list [.int (Int.ofNat i)])])
+
+example : RunOKG true [exFailB] exColSrc :=
+  ⟨by unfold OpOKG
+      simp only [exFailB]
+      exact batchedOKB_sound _ _ _ _ (Or.inr rfl) (fun k k' rest h => by simp at h) (by decide +kernel),
+   trivial⟩
+
+/-- skipping on: the group `[2, 3]` is gone (rows 2 and 3), the five other rows arrive in order as
+records of 2 rows — nothing behind the failing group is lost; skipping off: the one record completed
+before the failing call, then the error with the original as cause -/
+example : (Impl.run true [exFailB] exColSrc).out.map colInts = [[0, 1], [4, 5], [6]] ∧
+    (Impl.run true [exFailB] exColSrc).err = none ∧
+    (Impl.run false [exFailB] exColSrc).out.map colInts = [[0, 1]] ∧
+    (Impl.run false [exFailB] exColSrc).err = some { kind := .value, cause := some .value } := by
+  decide +kernel
+
 
 /-- `apply(lambda a: 10 // a ...)`-like: fails with a skippable `ValueError` on `a = 0` -/
 def exFail : Op :=
@@ -182,5 +301,19 @@ example : (Impl.run true [exFail] exSrc).out.length = 2 ∧ (Impl.run true [exFa
   decide +kernel
 
 example : (Ref.semCall exFail 0 (.dict [("a", .int 0)])).2 = 0 := by decide +kernel
+
+/-- without `fn_batch_size` a record whose inputs cannot be read with a skippable error (here: a list
+where a mapping is expected, `TypeError`) is inside the theorem's domain and is skipped as a whole -/
+def exSrcUnreadable : List (Ev Val) :=
+  [.ok (.dict [("v", .list [.int 0])]), .ok (.list []), .ok (.dict [("v", .list [.int 2])])]
+
+example : RunOKG true [{ exFailB with fnBatch := 0 }] exSrcUnreadable :=
+  ⟨by unfold OpOKG
+      simp only [exFailB]
+      exact batchedOKB_sound _ _ _ _ (Or.inr rfl) (fun k k' rest h => by simp at h) (by decide +kernel),
+   trivial⟩
+
+example : (Impl.run true [{ exFailB with fnBatch := 0 }] exSrcUnreadable).out.map colInts = [[0, 2]] ∧
+    (Impl.run true [{ exFailB with fnBatch := 0 }] exSrcUnreadable).err = none := by decide +kernel
 
 end MlModel.C12
